@@ -640,16 +640,20 @@ impl FatVolume {
                 self.iterate_fat16(dir_info, fat16_info, block_cache, |de, odde| {
                     if let Some((start, this_seqno, csum, buffer)) = odde.lfn_contents() {
                         seq_state = seq_state.update(lfn_buffer, start, this_seqno, csum, buffer);
-                    } else if let SeqState::Complete { csum } = seq_state {
-                        if csum == de.name.csum() {
-                            // Checksum is good, and all the pieces are there
-                            func(de, Some(lfn_buffer.as_str()))
+                    } else {
+                        if let SeqState::Complete { csum } = seq_state {
+                            if csum == de.name.csum() {
+                                // Checksum is good, and all the pieces are there
+                                func(de, Some(lfn_buffer.as_str()))
+                            } else {
+                                // Checksum was bad
+                                func(de, None)
+                            }
                         } else {
-                            // Checksum was bad
                             func(de, None)
                         }
-                    } else {
-                        func(de, None)
+                        // a long name belongs to the one entry that follows it
+                        seq_state = SeqState::Waiting;
                     }
                 })
             }
@@ -657,16 +661,20 @@ impl FatVolume {
                 self.iterate_fat32(dir_info, fat32_info, block_cache, |de, odde| {
                     if let Some((start, this_seqno, csum, buffer)) = odde.lfn_contents() {
                         seq_state = seq_state.update(lfn_buffer, start, this_seqno, csum, buffer);
-                    } else if let SeqState::Complete { csum } = seq_state {
-                        if csum == de.name.csum() {
-                            // Checksum is good, and all the pieces are there
-                            func(de, Some(lfn_buffer.as_str()))
+                    } else {
+                        if let SeqState::Complete { csum } = seq_state {
+                            if csum == de.name.csum() {
+                                // Checksum is good, and all the pieces are there
+                                func(de, Some(lfn_buffer.as_str()))
+                            } else {
+                                // Checksum was bad
+                                func(de, None)
+                            }
                         } else {
-                            // Checksum was bad
                             func(de, None)
                         }
-                    } else {
-                        func(de, None)
+                        // a long name belongs to the one entry that follows it
+                        seq_state = SeqState::Waiting;
                     }
                 })
             }
